@@ -182,4 +182,22 @@ def State.session (s : State) (ops : List SOp) : SEnd → State
 def UniqueKeys (s : Schema) (docs : List DocRec) : Prop :=
   ∀ f t, s.isUnique f = true → (docs.filter (fun d => d.hasTerm f t)).length ≤ 1
 
+/-! ### add-only calls and partitions of additions into sessions (used by `WM.C06.partition_invisible`) -/
+
+/-- calls that only add documents (or do nothing) -/
+def SOp.addOnly : SOp → Bool
+  | .add _ | .skip => true
+  | _ => false
+
+/-- the documents an add-only call adds -/
+def SOp.added : SOp → List DocRec
+  | .add d => [d]
+  | _ => []
+
+/-- one committed session of `add_document` calls per part: any way of cutting a list of
+    additions into commits -/
+def State.addSessions (sp : State) : List (List DocRec) → State
+  | [] => sp
+  | ds :: r => State.addSessions (sp.session (ds.map .add) .commit) r
+
 end WM.Dict
